@@ -324,6 +324,7 @@ struct ExpectRig {
 }
 struct RelayRig {
     m: RelayProxyProtocol<FakeSock>,
+    back_peer: Option<std::os::unix::net::UnixStream>,
     script: Rc<RefCell<Script>>,
     dead: bool,
     _pool: Pool,
@@ -527,7 +528,11 @@ impl Area for PP {
         big.extend_from_slice(&[0x21, 0x11, 0x01, 0x00]);
         big.extend_from_slice(&[0u8; 300]);
         c.push(vec!["new".into(), "xnew".into(), "xev".into(), format!("xread {} C", hex(&big[..28])), format!("xread {} C", hex(&big[28..52])), format!("xread {} C", hex(&big[52..232]))]);
-        c.push(vec!["new".into(), "send v4".into(), "send v6".into(), "send v46".into()]);
+        c.push(vec!["new".into(), "send v4".into(), "send v6".into(), "send v46".into(), "send v4 blocked".into(), "send v6 closed".into(), "send v46 nobackend".into()]);
+        // expect: the client closes before sending anything (bare TCP health check): closed at index 0
+        c.push(vec!["new".into(), "xnew".into(), "xev".into(), "xread - X".into()]);
+        // relay: header parsed, backend send buffer full: the write error path resets both readinesses
+        c.push(vec!["new".into(), "rnew 16384".into(), format!("rread {} W", hex(&v4[..10])), format!("rread {} W", hex(&v4[10..])), "rwriteblocked".into()]);
         // AF_UNIX header: encoder emits it, parser rejects it
         c.push(vec!["new".into(), format!("enc P 49 u:{}:{}", hex(&[0u8; 108]), hex(&[1u8; 108])), format!("parse {}", hex(&{
             let mut h = SIG.to_vec();
@@ -606,6 +611,10 @@ impl Area for PP {
                     rng.bytes(n)
                 };
                 ops.push("xnew".into());
+                if rng.chance(1, 25) {
+                    ops.push("xev".into());
+                    ops.push("xread - X".into());
+                }
                 let stream = [h.clone(), pl].concat();
                 let style = rng.below(5);
                 for c in chunks(rng, &stream, style) {
@@ -645,11 +654,15 @@ impl Area for PP {
                     };
                     ops.push(format!("rread {} {}", hex(&c), r));
                 }
+                if rng.chance(1, 2) {
+                    ops.push("rwriteblocked".into());
+                }
             }
             _ => {
                 // send mode has no input besides the address family: one case in five of this arm
                 if rng.chance(1, 5) {
-                    ops.push(format!("send {}", rng.pick(&["v4", "v6", "v46"])));
+                    let v = *rng.pick(&["", "", " blocked", " closed", " nobackend"]);
+                    ops.push(format!("send {}{}", rng.pick(&["v4", "v6", "v46"]), v));
                 } else {
                     let n = rng.below(40) as usize;
                     ops.push(format!("parse {}", hex(&rng.bytes(n))));
@@ -854,7 +867,7 @@ impl Area for PP {
                         let mut pool = Pool::with_capacity(1, 1, cap);
                         let buf = pool.checkout().expect("checkout");
                         let m = RelayProxyProtocol::new(FakeSock { stream, script: script.clone() }, Token(7), Ulid::generate(), None, buf);
-                        let mut rig = RelayRig { m, script, dead: false, _pool: pool };
+                        let mut rig = RelayRig { m, back_peer: None, script, dead: false, _pool: pool };
                         let s = format!("r {}", relay_dump(&mut rig));
                         r = Some(rig);
                         s
@@ -887,39 +900,128 @@ impl Area for PP {
                     }
                     _ => "bad-op".into(),
                 },
-                ["send", fam] => {
+                ["rwriteblocked"] => match r.as_mut() {
+                    Some(rig) => {
+                        if rig.dead {
+                            "dead".into()
+                        } else {
+                            // a backend whose send buffer is full: `back_writable`'s first write answers EAGAIN (the only way
+                            // to call it without the F13 spin) — unless the buffer is empty: `write(&[])` answers Ok(0) even
+                            // then and the loop never returns; that call is not made (the model must say `spin`)
+                            if rig.m.header_size.is_some() && rig.m.frontend_buffer.available_data() == 0 {
+                                rig.dead = true;
+                                run.tags.push("rwriteblocked:would-spin".into());
+                                run.out.push("skipped-would-spin".into());
+                                continue;
+                            }
+                            match retry(unix_pair) {
+                                Some((back, peer)) => {
+                                    use std::os::unix::io::AsRawFd;
+                                    let fd = back.as_raw_fd();
+                                    let big = vec![0xEEu8; 65536];
+                                    for chunk in [65536usize, 4096, 256, 16, 1] {
+                                        while unsafe { libc::send(fd, big.as_ptr() as *const libc::c_void, chunk, libc::MSG_DONTWAIT | libc::MSG_NOSIGNAL) } > 0 {}
+                                    }
+                                    rig.m.set_back_socket(back);
+                                    let out = rig.m.back_writable(&mut metrics);
+                                    rig.back_peer = Some(peer);
+                                    run.tags.push(format!("rwriteblocked:{}", res_str(out)));
+                                    if out != SessionResult::Continue {
+                                        rig.dead = true;
+                                    }
+                                    format!("{} out=- cursor=0 {}", res_str(out), relay_dump(rig))
+                                }
+                                None => {
+                                    inconclusive = true;
+                                    run.tags.push("inconclusive".into());
+                                    "inconclusive".into()
+                                }
+                            }
+                        }
+                    }
+                    None => "bad-op".into(),
+                },
+                ["send", fam, variant @ ..] => {
                     let kind = match *fam {
                         "v4" => 0,
                         "v6" => 1,
                         _ => 2,
                     };
+                    let variant = variant.first().copied().unwrap_or("");
                     let (Some((front, _client, client_addr, listener_addr)), Some((back, mut backend_peer))) = (tcp_front(kind), retry(unix_pair)) else {
                         inconclusive = true;
                         run.tags.push("inconclusive".into());
                         run.out.push("inconclusive".into());
                         continue;
                     };
-                    let mut m = SendProxyProtocol::new(front, Token(7), Ulid::generate(), Some(back));
+                    use std::os::unix::io::AsRawFd;
+                    let back_fd = back.as_raw_fd();
+                    let mut filler = 0usize;
+                    let mut peer_opt = None;
+                    match variant {
+                        "blocked" => {
+                            // fill the backend socket's send buffer through its own descriptor: the first header write gets EAGAIN
+                            let big = vec![0xEEu8; 65536];
+                            for chunk in [65536usize, 4096, 256, 16, 1] {
+                                loop {
+                                    let n = unsafe { libc::send(back_fd, big.as_ptr() as *const libc::c_void, chunk, libc::MSG_DONTWAIT | libc::MSG_NOSIGNAL) };
+                                    if n <= 0 {
+                                        break;
+                                    }
+                                    filler += n as usize;
+                                }
+                            }
+                            peer_opt = Some(backend_peer);
+                        }
+                        "closed" => drop(backend_peer),
+                        _ => peer_opt = Some(backend_peer),
+                    }
+                    let mut m = SendProxyProtocol::new(front, Token(7), Ulid::generate(), if variant == "nobackend" { None } else { Some(back) });
+                    let mut prefix = String::new();
                     let mut out = m.back_writable(&mut metrics);
+                    if variant == "blocked" {
+                        // nothing may have been written; drain the filler, then the header goes out
+                        prefix = format!("{};", res_str(out));
+                        if m.backend_readiness.event.is_writable() {
+                            run.oracle.push(("send-wouldblock-keeps-writable".into(), op.clone()));
+                        }
+                        let peer = peer_opt.as_mut().unwrap();
+                        let mut buf = vec![0u8; filler];
+                        if peer.read_exact(&mut buf).is_err() || buf.iter().any(|x| *x != 0xEE) {
+                            run.oracle.push(("send-header-partial-under-backpressure".into(), format!("{op}: bytes other than the filler reached the backend while its buffer was full")));
+                        }
+                        out = m.back_writable(&mut metrics);
+                    }
                     let mut calls = 1;
-                    while out == SessionResult::Continue && calls < 50 {
+                    while out == SessionResult::Continue && calls < 50 && variant != "blocked" {
                         out = m.back_writable(&mut metrics);
                         calls += 1;
                     }
                     drop(m);
-                    backend_peer.set_read_timeout(Some(Duration::from_millis(300))).unwrap();
                     let mut got = vec![];
-                    let mut buf = [0u8; 512];
-                    let t0 = Instant::now();
-                    while t0.elapsed() < Duration::from_millis(400) {
-                        match backend_peer.read(&mut buf) {
-                            Ok(0) => break,
-                            Ok(n) => got.extend_from_slice(&buf[..n]),
-                            Err(_) => break,
+                    if let Some(mut backend_peer) = peer_opt {
+                        backend_peer.set_read_timeout(Some(Duration::from_millis(300))).unwrap();
+                        let mut buf = [0u8; 512];
+                        let t0 = Instant::now();
+                        while t0.elapsed() < Duration::from_millis(400) {
+                            match backend_peer.read(&mut buf) {
+                                Ok(0) => break,
+                                Ok(n) => got.extend_from_slice(&buf[..n]),
+                                Err(_) => break,
+                            }
                         }
                     }
+                    if got.is_empty() {
+                        run.nontrivial = true;
+                        run.tags.push(format!("send:{fam}:{variant}:nothing"));
+                        if variant.is_empty() || variant == "blocked" {
+                            run.oracle.push(("send-header-wrong".into(), format!("{op}: the backend received nothing")));
+                        }
+                        run.out.push(format!("{prefix}{} len=0 nothing", res_str(out)));
+                        continue;
+                    }
                     run.nontrivial = true;
-                    run.tags.push(format!("send:{fam}"));
+                    run.tags.push(format!("send:{fam}:{variant}"));
                     match ref_decode(&got) {
                         Some(rh) => {
                             let lab = |a: Option<SocketAddr>| {
@@ -934,11 +1036,11 @@ impl Area for PP {
                             if rh.len != got.len() || lab(rh.src) != "client" || lab(rh.dst) != "listener" || rh.cmd != 1 {
                                 run.oracle.push(("send-header-wrong".into(), format!("{op}: got {} ({:?}), client {client_addr}, listener {listener_addr}", hex(&got), rh)));
                             }
-                            format!("{} len={} consumed={} cmd={} fam={} src={} dst={}", res_str(out), got.len(), rh.len, if rh.cmd == 1 { "P" } else { "L" }, rh.fam, lab(rh.src), lab(rh.dst))
+                            format!("{prefix}{} len={} consumed={} cmd={} fam={} src={} dst={}", res_str(out), got.len(), rh.len, if rh.cmd == 1 { "P" } else { "L" }, rh.fam, lab(rh.src), lab(rh.dst))
                         }
                         None => {
                             run.oracle.push(("send-header-wrong".into(), format!("{op}: got {}", hex(&got))));
-                            format!("{} len={} unparsable", res_str(out), got.len())
+                            format!("{prefix}{} len={} unparsable", res_str(out), got.len())
                         }
                     }
                 }
@@ -950,7 +1052,7 @@ impl Area for PP {
     }
 
     fn lines_agree(&self, impl_line: &str, model_line: &str) -> bool {
-        impl_line == model_line || impl_line == "inconclusive"
+        impl_line == model_line || impl_line == "inconclusive" || (impl_line == "skipped-would-spin" && model_line.starts_with("spin "))
     }
 
     fn classify_mismatch(&self, ops: &[String], _i: &[String], _m: &[String]) -> String {
